@@ -38,6 +38,8 @@ var nvPresets = [][]int{
 	{0, 1, 8, 0, 0, 0},
 	{0, 6, 2, 0, 0, 0}, // own vote: certificate for another (consumer-invalid) block under PREPARE signatures lifted from the block really prepared
 	{0, 6, 0, 0, 1, 1},
+	{0, 6, 2, 0, 1, 1},
+	{0, 6, 2, 0, 0, 1},
 	{0, 0, 0, 4, 0, 0}, // embedded proposal in the leader's name with a signature that is not the leader's
 	{0, 1, 9, 4, 0, 7},
 	{3, 0, 1, 4, 1, 0},
@@ -291,7 +293,7 @@ func TestC17S(t *testing.T) {
 // is never broadcast.
 func TestC15S(t *testing.T) {
 	o := simOpts{Focus: "C15", MaxN: 7, MaxHeight: 3, MaxSteps: 150, ByzBias: 60}
-	simProperty(t, o, func(w *sim.World) bool { return w.Obs.Interrupts > 0 })
+	simProperty(t, o, func(w *sim.World) bool { return w.Obs.Interrupts > 0 || w.Obs.SplitEvents > 0 })
 }
 
 // C11 thorough variant: at emission, every correct peer is cloned by replay and judged at once (see sim.cloneCheck).
